@@ -7,24 +7,26 @@
    its members satisfy the state facts, all its transitions the measure fact, of
    Proofs/SubprocLocal.v.  The domain genuinely is finite; the bound is `all_behs` itself.
 
-   `programs_check`: the REGENERATED programs (Gen/Subproc.v), non-strict facts (where unpickling
-   in the parent raises, only the outcome is demanded).
-   `protected_strict`: a reference parent program - the current one with join()/rx.close() moved
-   into a `finally` of the recv try statement - satisfies the STRICT facts: nothing is left
-   behind on any exit path, also when unpickling raises.                                       *)
+   `programs_check`: the REGENERATED programs (Gen/Subproc.v): strict for unpickling failures
+   (nothing left behind), NOT strict for a cancellation delivered at the wait (only the outcome).
+   `protected_strict`: a reference parent program - the current one with a cleanup handler around
+   the wait - satisfies the facts strict in both respects: nothing is left behind on ANY exit path.                                       *)
 From Coq Require Import List Bool.
 From PV Require Import Base.Exn Model.PipeKernel Model.Subproc Proofs.SubprocReach Proofs.SubprocLocal Gen.Subproc.
 Import ListNotations.
 
 (* after fix K2 (join()/rx.close() in a finally): the REGENERATED programs pass the STRICT sweep *)
-Lemma programs_check : check_all Gen.Subproc.parent_prog Gen.Subproc.child_prog true = true.
+Lemma programs_check : check_all Gen.Subproc.parent_prog Gen.Subproc.child_prog true false = true.
 Proof. vm_cast_no_check (@eq_refl bool true). Qed.
 
+(* reference: the current parent program with the wait under `except BaseException:` whose body removes
+   the reader, kills and joins the child, closes the read end and re-raises (candidate repair of C17-K5) *)
 Definition protected_parent_prog : list pop :=
-  [ PRequirePipe; PPipe; PMkProcess; PStart; PCloseTx; PNewEvent; PGetLoop; PAddReader; PIfNotPollWait;
+  [ PRequirePipe; PPipe; PMkProcess; PStart; PCloseTx; PNewEvent; PGetLoop; PAddReader;
+    PIfNotPollWaitH 4; PRemoveReader; PKill; PJoin; PCloseRx; PReraise;
     PRemoveReader; PClearEvent;
     PRecvDefer [([EOFErrorC; OSErrorC], PASetChildProcessError)]; PJoin; PCloseRx; PReraise;
     PRaiseIfError; PReturn ].
 
-Lemma protected_strict : check_all protected_parent_prog Gen.Subproc.child_prog true = true.
+Lemma protected_strict : check_all protected_parent_prog Gen.Subproc.child_prog true true = true.
 Proof. vm_cast_no_check (@eq_refl bool true). Qed.
